@@ -263,6 +263,18 @@ def match_known(prop, vclass, detail, trace):
     return None
 
 
+KNOWN_SEEN = {}
+
+
+def note_known(prop, k, n, rel):
+    """One KNOWN-FINDING line per listed finding and check; occurrences are counted for the evidence."""
+    key = k.get("id") or k.get("what", "")[:60]
+    if key not in KNOWN_SEEN:
+        log("KNOWN-FINDING: property=%s %s (replay=%s)" % (prop, k.get("what", k.get("class", "")), rel))
+        KNOWN_SEEN[key] = {"occurrences_in_this_run": 0, "example_replay": rel}
+    KNOWN_SEEN[key]["occurrences_in_this_run"] += n
+
+
 # ---------------------------------------------------------------- violations -------------
 
 def handle_violations(prop, binary, build_desc, engine, mode, batch, vseed, env_extra=None):
@@ -275,9 +287,29 @@ def handle_violations(prop, binary, build_desc, engine, mode, batch, vseed, env_
         seen_classes.setdefault(v["class"], v)
     unlisted = 0
     known = 0
-    for vclass, v in list(seen_classes.items())[:5]:
+    for vclass, v in list(seen_classes.items())[:6]:
         if vclass == "harness-panic":
             raise HarnessError("engine %s panicked outside its guards: %s" % (engine, v["detail"]))
+        k = match_known(prop, vclass, v["detail"], v["trace"])
+        if k:
+            # a listed finding: kept as found (no minimisation), still confirmed in a fresh process
+            tagname = feat_tag(build_desc.get("features", []), build_desc.get("hook", True)) + ("-shim" if build_desc.get("shim") else "") + ("-dbg" if build_desc.get("dbg") else "")
+            rel = os.path.join("replays", "known-%s-%s-%s-%s.json" % (prop, tagname, mode, v["s"]))
+            path = os.path.join(VERIF, rel)
+            with open(path, "w") as f:
+                json.dump({"property": prop, "engine": engine, "mode": mode, "build": build_desc, "verif_seed": vseed,
+                           "run_index": v["i"], "run_seed": v["s"], "violation": {"class": vclass, "detail": v["detail"]},
+                           "minimised": None, "known_finding": k.get("id"), "trace": v["trace"]}, f, indent=1)
+            env = dict(os.environ)
+            if env_extra:
+                env.update(env_extra)
+            ok, got = confirm_replay(binary, engine, path, vclass, env)
+            if not ok:
+                raise HarnessError("listed finding %s of %s (run %d) does not reproduce in a fresh process (got %s)" % (vclass, prop, v["i"], got))
+            n = sum(1 for x in batch.violations if x["class"] == vclass)
+            note_known(prop, k, n, rel)
+            known += 1
+            continue
         raw = os.path.join(WORK, "viol-%s-%s.json" % (prop, v["s"]))
         with open(raw, "w") as f:
             json.dump({"trace": v["trace"]}, f)
@@ -319,7 +351,7 @@ def handle_violations(prop, binary, build_desc, engine, mode, batch, vseed, env_
                                    "simulator nondeterminism" % (vclass, prop, v["i"], got))
         k = match_known(prop, replay["violation"]["class"], replay["violation"]["detail"], replay["trace"])
         if k:
-            log("KNOWN-FINDING: property=%s %s" % (prop, k.get("what", vclass)))
+            note_known(prop, k, 1, rel)
             known += 1
         else:
             log("  violation class=%s run=%d: %s" % (replay["violation"]["class"], v["i"], replay["violation"]["detail"][:400]))
@@ -353,6 +385,8 @@ def write_evidence(prop, tier, level, coverage, assumptions, wall, violations):
     if SHADOW:
         return  # runs against a scratch copy are not evidence
     coverage.setdefault("simulated_runs_per_hour", int(coverage.get("evaluations", 0) / max(wall, 1e-6) * 3600))
+    if KNOWN_SEEN:
+        coverage["known_findings_met_in_this_run(listed in known_findings.json; not counted as violations)"] = KNOWN_SEEN
     coverage.setdefault("seeds_per_hour", "one VERIF_SEED per invocation; run seeds (one per simulated run) per hour = simulated_runs_per_hour")
     os.makedirs(os.path.join(VERIF, "evidence"), exist_ok=True)
     doc = {
@@ -1291,6 +1325,8 @@ def replay(path):
     p = subprocess.run([binary, r["engine"], "exec", "--trace", path, "-v"], stdout=subprocess.PIPE, stderr=subprocess.PIPE, text=True, env=env)
     sys.stdout.write(p.stdout)
     if p.returncode == 1:
+        if r.get("known_finding"):
+            log("(reproduced; this is the listed finding %s of known_findings.json)" % r["known_finding"])
         log("VIOLATION property=%s replay=%s" % (r["property"], path))
         return 1
     if p.returncode == 0:
